@@ -108,6 +108,12 @@ class AlgorithmWithAnnealingMixin:
             self.algo_parameters["annealing"]["n_plateau"] - 1
         )
 
+        if self._annealing_period < 1:
+            raise LeaspyAlgoInputError(
+                "Your `annealing.n_iter` should be at least `annealing.n_plateau` - 1, "
+                "so that every temperature plateau lasts at least one iteration."
+            )
+
         self._annealing_temperature_decrement = (
             self.algo_parameters["annealing"]["initial_temperature"] - 1.0
         ) / (self.algo_parameters["annealing"]["n_plateau"] - 1)
